@@ -160,3 +160,14 @@ PROPS["C01"] = dict(
     harness=["impl"],
     level_text="Theorems: for every byte string, every template/sampling state and every history the decoders, the dissector, the conversion and the pipes of the model end in a result or a returned error (panic and fuel exhaustion are explicit outcomes of the model and proved unreachable; loops need at most |d|+2 iterations). PARTIAL: configurations with custom mappings are proved only under C14's Sane predicate; wall-clock time of the real process is watched by a watchdog, not proved.",
 )
+
+PROPS["C02"] = dict(
+    modules=["Proofs.C02"],
+    theorems=["Goflow.C02.make_sites_capped", "Goflow.C02.sflow_make_capped", "Goflow.C02.records_le_bytes",
+              "Goflow.C02.dataSet_fields_bound", "Goflow.C02.v5_alloc", "Goflow.C02.message_objects_le_records"],
+    generators=[dict(name="C02", quick=25, thorough=2500)],
+    harness=["impl"],
+    count_all=True,
+    level_text="PARTIAL: theorems bound every make() site of the decoders (regenerated list: constant, length of a decoded list, 16-bit field, or capped at 1000 in the same branch) and the number of objects a decode returns (records x record size <= payload; one value per template field; one message per record; sFlow samples/records <= 1000) by the datagram length and the template width, never by a claimed count. The byte figure of the real allocator is measured per datagram (runtime.MemStats.TotalAlloc delta around DecodeFlow) against the property's budget by the check, not proved.",
+    assumptions=["Go allocator size classes, interface boxing and append growth are abstracted: the budget comparison is a measurement on the real process"],
+)
